@@ -1,6 +1,6 @@
 #!/bin/bash
 # usage: tools/try_patch.sh <PROP> <patch file> [check args...]   -- runs the property's check against a scratch copy of /repo/src with the patch applied
-PROP=$1; PATCH=$2; shift 2
+PROP=$1; PATCH=$(realpath "$2"); shift 2
 COPY=/dev/shm/verif-try-$$
 rm -rf $COPY; mkdir -p $COPY
 cp -r /repo/src $COPY/src
